@@ -3,7 +3,7 @@
 From Coq Require Import ZArith List Bool Sorted.
 From Bluge Require Import Base.Res Base.Corr Base.UTF8 Gen.ParamsAnalysis
   Analysis.Pipeline Analysis.PipelineProofs Analysis.Tokenizers Analysis.TokenizersProofs
-  Analysis.Filters Analysis.FiltersProofs Analysis.ShingleProofs Analysis.Freq Analysis.FreqProofs Analysis.ExamplesProofs.
+  Analysis.Filters Analysis.FiltersProofs Analysis.ShingleProofs Analysis.ReverseProofs Analysis.Freq Analysis.FreqProofs Analysis.ExamplesProofs.
 Import ListNotations.
 Open Scope Z_scope.
 
@@ -158,6 +158,15 @@ Example reverse_fixed_example :
   reverse_filter true (fun _ => false) [Tk 0 3 [97; 255; 98] 1 0 false] = Ok [Tk 0 3 [98; 255; 97] 1 0 false].
 Proof. exact reverse_fixed_witness. Qed.
 Print Assumptions reverse_fixed_example.
+
+(* the repaired reverse.go returns on every byte string (terms of bytes in [0,256); the mark
+   classes Mn/Me/Mc do not contain U+FFFD): the repair is panic-free for all inputs *)
+Theorem reverse_total : forall is_mark : Z -> bool,
+  is_mark rune_error = false ->
+  forall ts, Forall (fun t => bytes_ok (t_term t) = true) ts ->
+             exists out, reverse_filter true is_mark ts = Ok out.
+Proof. exact reverse_total_all. Qed.
+Print Assumptions reverse_total.
 
 (* shingle.go: the contract is preserved on streams whose offsets are in text order (every
    bundled tokenizer emits such streams), for every min, max, separator and filler ... *)
